@@ -2,7 +2,7 @@
 (***************************************************************************)
 (* Models for property C13.  Fam selects the scope ("all" = every family): *)
 (*  "gl"  g(r), exhaustive: 3 particles (species 1,2,1) on a 4 x 4         *)
-(*        sub-lattice of an 8 x 8 cell, orthogonal and triclinic, 2 bin    *)
+(*        sub-lattice of an 8 x 8 cell, orthogonal and triclinic, 1-2 bin  *)
 (*        widths, EVERY assignment of values: non-empty boolean selections,*)
 (*        reals -2..2, 5 Gaussian integers, 4 real and 3 complex           *)
 (*        2-vectors, 4 symmetric and 3 general 2 x 2 tensors               *)
@@ -53,7 +53,7 @@ LatP3    == IF Tier = "quick" THEN {<<3, 6>>} ELSE {<<1, 1>>, <<3, 6>>, <<6, 2>>
 LatMasks == IF Tier = "quick" THEN {<<1, 1>>} ELSE {<<1, 1>>, <<1, 0>>, <<0, 0>>}
 GLatGeoms ==
   { [fam |-> "gl", H |-> h, ppp |-> p, S |-> 1, types |-> <<1, 2, 1>>, pos |-> <<<<0, 0>>, p2, p3>>, wn |-> w, sharp |-> 1] :
-      h \in LatCells, p \in LatMasks, p2 \in LatP2, p3 \in LatP3, w \in {1, 2} }
+      h \in LatCells, p \in LatMasks, p2 \in LatP2, p3 \in LatP3, w \in (IF Tier = "quick" THEN {1} ELSE {1, 2}) }
 GLatValues == ScalarValues \cup VectorValues \cup TensorValues
 \* shard key: geometry and values together (cheap to evaluate; every shard enumerates the geometries and the value sets only)
 GeomKey(g) == g.pos[2][1] + 3 * g.pos[2][2] + 5 * g.pos[3][1] + 7 * g.pos[3][2] + g.wn + 56
@@ -195,7 +195,8 @@ InvVectorIsSumOfComponents ==
   /\ IsS => \A v \in Checked : VectorIsSumOfComponentsS(c, v)
 InvNormalisedVariant     == IsG => NormalisedVariantG(c, o.h, o.pt)
 InvWeightSymmetric       == WeightSymmetric(c) /\ ConjugateSideUnobservable(c)
-InvCountIsPairHistTotal  == IsG => CountIsPairHistTotal(c, o.h)
+\* (PairHist's own accumulation is run a second time here: in quick only on the smaller hashed configurations)
+InvCountIsPairHistTotal  == (IsG /\ (Tier # "quick" \/ NPart(c) <= 7)) => CountIsPairHistTotal(c, o.h)
 InvBoolIsSubsystemTotal  == IsG => BoolIsSubsystemTotalG(c, o.h)
 InvComplexIsVectorOfParts == IsG => ComplexIsVectorOfPartsG(c, o.h, o.pt)
 InvSqRealNonNegative     == IsS => \A v \in Checked : SqRealNonNegative(c, v) /\ ClassSumsPartition(c, v)
